@@ -130,3 +130,91 @@ Lemma since_plus_one_loses :
   /\ fst (backup_of s_m 2 1 100 []) = [mkE g_k 2 0 0 0 (w_v 2)]
   /\ fst (backup_of s_m 2 (1 + 1) 100 []) = [].
 Proof. vm_compute. repeat split; reflexivity. Qed.
+
+(* ---------------------------------------------------------------- packaged refutations *)
+Definition rng_eqb (a b : bytes * bytes) : bool := bytes_eqb (fst a) (fst b) && bytes_eqb (snd a) (snd b).
+Definition out_of (ro : list ((bytes * bytes) * list entry)) (rng : bytes * bytes) : list entry :=
+  match find (fun x => rng_eqb (fst x) rng) ro with Some x => snd x | None => [] end.
+(* what a run delivered, put in key-range order *)
+Definition in_range_order (ks : list bytes) (ro : list ((bytes * bytes) * list entry)) : list entry :=
+  concat (map (out_of ro) (ranges ks)).
+
+Definition end_view (ops : list xop) : src := merged (s_db (x_sys (snd (xexec w_init ops 0)))).
+
+(* the statement that does NOT hold (C25_snapshot): in every accepted history, a run whose
+   producers covered the ranges of a legal split delivers the single-snapshot pass at the read
+   timestamp current when the run started *)
+Definition snapshot_statement : Prop :=
+  forall (pre run : list xop) (cfg : srun) (ks : list bytes) (now : N),
+    fst (xexec w_init (pre ++ run) 0) = None ->
+    splits_ok (r_prefix cfg) ks = true ->
+    Permutation (map fst (range_outs run)) (ranges ks) ->
+    in_range_order ks (range_outs run)
+    = concat (stream_pass (r_prefix cfg) (r_since cfg) now no_ban (r_kind cfg) (choose_of cfg)
+                (s_next (x_sys (snd (xexec w_init pre 0))) - 1) (end_view pre) ks).
+
+Lemma snapshot_refuted :
+  exists pre run ks,
+    fst (xexec w_init (pre ++ run) 0) = None
+    /\ splits_ok [] ks = true
+    /\ Permutation (map fst (range_outs run)) (ranges ks)
+    /\ (forall r, in_range_order ks (range_outs run)
+                  <> concat (stream_pass [] 0 100 (fun _ => false) (KToList 1) all_keys r (end_view (pre ++ run)) ks))
+    /\ in_range_order ks (range_outs run)
+       <> concat (stream_pass [] 0 100 (fun _ => false) (KToList 1) all_keys
+                    (s_next (x_sys (snd (xexec w_init pre 0))) - 1) (end_view pre) ks).
+Proof.
+  exists w_pre, (w_run (KToList 1) w_out1 w_out0), [w_split].
+  split; [exact w_hist25_accepted|]. split; [reflexivity|]. split; [exact w_ranges_perm|]. split.
+  - intros r.
+    replace (end_view (w_pre ++ w_run (KToList 1) w_out1 w_out0)) with w_final by (vm_compute; reflexivity).
+    replace (in_range_order [w_split] (range_outs (w_run (KToList 1) w_out1 w_out0))) with (w_out0 ++ w_out1)
+      by (vm_compute; reflexivity).
+    exact (w_delivered_no_snapshot r).
+  - vm_compute. discriminate.
+Qed.
+
+(* C24: backup #1 is a run of the system whose producers covered the ranges; backup #2 is a
+   quiescent run with since = the version backup #1 returned; the loaded chain shows a = 10
+   (version 1) where the source shows a = 5 (version 2) *)
+Lemma chain_refuted :
+  exists pre run1 ks out1 ret1 out2 ret2 hist,
+    hist = pre ++ run1 ++ [Run (w_cfg (KBackup ret1)) 2 ks out2 ret2]
+    /\ fst (xexec w_init hist 0) = None
+    /\ splits_ok [] ks = true
+    /\ Permutation (map fst (range_outs run1)) (ranges ks)
+    /\ out1 = in_range_order ks (range_outs run1) /\ ret1 = max_ver out1
+    /\ exists k, vis (s_writes (load (load (init_sys false false 1 1 1) out1) (concat out2))) k 2 100
+                 <> vis (end_view hist) k 2 100.
+Proof.
+  exists w_pre, (w_run (KBackup 0) w_bk1 w_bk0), [w_split], (w_bk0 ++ w_bk1), 2, [], 0, w_hist24.
+  split; [reflexivity|]. split; [exact (proj1 w_hist24_accepted)|]. split; [reflexivity|].
+  split; [cbn; apply perm_swap|]. split; [vm_compute; reflexivity|]. split; [vm_compute; reflexivity|].
+  exists w_a. vm_compute. discriminate.
+Qed.
+
+(* F21: all hypotheses of the chain theorem but "nothing was garbage-collected", and the
+   restored chain shows a key the source deleted *)
+Lemma chain_gc_refuted :
+  exists (bs : list (src * N)) W r k pre_compaction params,
+    W = compact_filter params pre_compaction
+    /\ In (W, r) bs /\ view_ok W /\ is_prefix c_badgerPrefix k = false
+    /\ (forall mi ri, In (mi, ri) bs ->
+          view_ok mi /\ no_empty_key mi /\ Forall (fun e => 0 < e_ver e) mi /\ ri <= r
+          /\ (forall e, In e W -> e_ver e <= ri -> In e mi))
+    /\ vis pre_compaction k r 100 = vis W k r 100
+    /\ vis (chain_of bs 0 100) k r 100 <> vis W k r 100.
+Proof.
+  exists [(g_m1, 1); (g_W, 2)], g_W, 2, g_k, g_all, (mkCP 2 1 false [] 100).
+  split; [reflexivity|]. split; [right; now left|]. split; [rewrite g_W_empty; constructor|].
+  split; [reflexivity|]. split; [exact g_chain_hyps|]. split; [vm_compute; reflexivity|].
+  vm_compute. discriminate.
+Qed.
+
+Lemma snapshot_statement_false : ~ snapshot_statement.
+Proof.
+  intros H.
+  specialize (H w_pre (w_run (KToList 1) w_out1 w_out0) (w_cfg (KToList 1)) [w_split] 100
+                w_hist25_accepted eq_refl w_ranges_perm).
+  vm_compute in H. discriminate.
+Qed.
